@@ -136,7 +136,9 @@ Qed.
    [frame_reads_back t] = the property's sentence: default read_csv of the written file shows every column
    under its name with the same values row by row (an integer may come back as the float of the same
    value, a missing cell as NaN).
-   The sentence is FALSE for all frames (five open findings, one _refuted theorem per cause); it is proved
+   The sentence, read with the DEFAULT reader, is FALSE for all frames (one _refuted theorem per cause: observations about the
+   default reader's type inference -- the file's text holds every value and a reader told the dtypes reproduces them; only the bare
+   carriage return is an open finding of the export); it is proved
    for the frames that satisfy the boolean [frame_safe].
    ==================================================================================================== *)
 
@@ -287,7 +289,7 @@ Theorem C17_csv_edge_ids_read_back : forall g, wf_graph (erase g) -> graph_names
 Proof. exact csv_edge_ids_read_back. Qed.
 Print Assumptions C17_csv_edge_ids_read_back.
 
-(* --- witnesses (open findings csv-default-read-*, csv-carriage-return-unquoted, csv-nul-truncates-string) --- *)
+(* --- witnesses (observations about the default reader; csv-carriage-return-unquoted is the one open finding) --- *)
 (* ids 1,2,3; v = [2^53+1, missing, 7]: v reads back as float64 [2^53, NaN, 7] (ids intact) *)
 Theorem C17_csv_int_missing_refuted :
   wf_frame w_int_missing /\ frame_reads_back w_int_missing = false /\
